@@ -72,6 +72,37 @@ def one(rec, hub, seed, tier, i):
             s.compute()
 
 
+def throughflow_case(rec, hub, rng):
+    """A flow-driven stock whose inflow and outflow are huge and nearly equal (a through-flow of ~1e16 with a small net addition), all
+    whole numbers on a grid with whole interval lengths: every quantity of the balance is exactly representable, so the stock is the
+    exact running total of the net additions and the library's own balance check accepts it."""
+    fd = hub.fd
+    n = int(rng.integers(3, 9))
+    step = int(rng.choice([1, 1, 2, 5]))
+    tdim = fd.Dimension(letter="t", name="time", items=[2000 + step * j for j in range(n)])
+    rdim = fd.Dimension(letter="r", name="region", items=["EUR", "USA"], dtype=str)
+    dims = fd.DimensionSet(dim_list=[tdim, rdim] if rng.random() < 0.5 else [tdim])
+    base = (rng.integers(2**50, 2**52, size=dims.shape) * 4).astype(float)   # multiples of 4 around 1e16: exactly representable
+    net = rng.integers(-20, 60, size=dims.shape).astype(float) * 4.0          # net additions that keep every sum exact
+    inflow, outflow = base + net, base
+    s = fd.SimpleFlowDrivenStock(dims=dims, inflow=fd.StockArray(dims=dims, values=inflow.copy()), outflow=fd.StockArray(dims=dims, values=outflow.copy()), time_letter="t")
+    rec.event(S.M03B, sig=f"throughflow|n={n}|step={step}|nd={len(dims.shape)}", cls="self-check|SimpleFlowDrivenStock|large through-flow, exact data")
+    try:
+        with dsm.quiet():
+            s.compute()
+    except Exception as e:
+        rec.violation(S.M03B, "compute-raised:large-through-flow", {"exc": repr(e)[:200]}, prop="C03")
+        return
+    exp = np.cumsum(net * step, axis=0)
+    if not np.array_equal(np.asarray(s.stock.values, dtype=float), exp):
+        rec.violation(S.M03, "stock-is-not-the-running-total-of-the-net-additions:exactly-representable-data", {"worst": float(np.max(np.abs(s.stock.values - exp))), "through_flow": float(base.max()), "step": step}, prop="C03")
+    try:
+        with dsm.quiet():
+            s.check_stock_balance()
+    except Exception as e:
+        rec.violation(S.M03B, "check_stock_balance-rejects-a-computed-stock:large-through-flow", {"exc": repr(e)[:200], "through_flow": float(base.max())}, prop="C03")
+
+
 def run(rec, hub, tier, seed, shard, nshards, budget):
     from ..oracles import bystand
 
@@ -88,6 +119,9 @@ def run(rec, hub, tier, seed, shard, nshards, budget):
             one(rec, hub, seed, tier, i)
         except Exception as e:
             rec.violation(S.M03, "compute-raised-on-a-valid-configuration", {"exc": repr(e)[:300]})
+        if k % 25 == 3:
+            rec.set_case(driver="c03.throughflow", seed=seed, tier=tier, shard=shard, nshards=nshards, idx=i)
+            throughflow_case(rec, hub, case_nprng(seed, "c03.throughflow", 0, i))
 
 
 def replay(rec, hub, case):
@@ -96,4 +130,7 @@ def replay(rec, hub, case):
     bystand.register(hub, "C03")
     S.register_compute(hub, PROPS)
     rec.set_case(**case)
+    if case["driver"] == "c03.throughflow":
+        throughflow_case(rec, hub, case_nprng(case["seed"], "c03.throughflow", 0, case["idx"]))
+        return
     one(rec, hub, case["seed"], case.get("tier", "quick"), case["idx"])
